@@ -239,6 +239,50 @@ pub fn main(tier: Tier, replay: Option<String>) -> i32 {
         let b = json!({"menu_lines": menu.len(), "max_lines": 3, "domain": [0, 1, 2, 3], "class_sets": sets2});
         jobs.push(job(DefSpace { label: "chardef/all-and-flags".into(), menu, max_lines: 3, probes: (0..=5).collect() }, Strategy::Dfs, Some(tier.pick(40, 900)), b));
     }
+    // class names are names of DIFFERENT classes: for every pair of names, a character given the one and a character
+    // given the other have no class in common (decided on what the reader reports, not on the crate's constants)
+    {
+        let names = ["DEFAULT", "SPACE", "KANJI", "SYMBOL", "NUMERIC", "ALPHA", "HIRAGANA", "KATAKANA", "KANJINUMERIC", "GREEK", "CYRILLIC", "USER1", "USER2", "USER3", "USER4", "NOOOVBOW", "NOOOVBOW2"];
+        let mut cases: Vec<(&'static str, &'static str)> = Vec::new();
+        for a in names {
+            for b in names {
+                if a != b {
+                    cases.push((a, b));
+                }
+            }
+        }
+        let n = cases.len();
+        jobs.push(job(
+            CaseSpace {
+                label: "chardef/pairs-of-class-names".into(),
+                cases,
+                check_fn: Box::new(|(a, b): &(&'static str, &'static str)| {
+                    let mut o = Outcome::new();
+                    o.evaluations = 1;
+                    o.nontrivial = true;
+                    let text = format!("DEFAULT 0 1 0\n0x0041 {}\n0x0042 {}\n0x0043 {} {}\n", a, b, a, b);
+                    match catch(|| CharacterCategory::from_reader(text.as_bytes()).map(|cc| (cc.get_category_types('A'), cc.get_category_types('B'), cc.get_category_types('C'))).map_err(|e| e.to_string())) {
+                        Err(p) => o.fail(Failure::panic(&format!("file {:?}", text), &p)),
+                        Ok(Err(e)) => o.fail(Failure::new("definition-rejected", format!("file {:?}: {}", text, e))),
+                        Ok(Ok((ca, cb, cc))) => {
+                            if ca.is_empty() || cb.is_empty() || !(ca & cb).is_empty() {
+                                o.fail(Failure::new("classes-differ", format!("file {:?}: U+0041 (class {}) reports {:?} and U+0042 (class {}) reports {:?}: two different class names must not share a class", text, a, ca, b, cb)));
+                            }
+                            if cc != (ca | cb) {
+                                o.fail(Failure::new("classes-differ", format!("file {:?}: U+0043 (classes {} {}) reports {:?}, the two classes alone give {:?} and {:?}", text, a, b, cc, ca, cb)));
+                            }
+                            o.observe(&(ca.bits(), cb.bits()));
+                        }
+                    }
+                    o
+                }),
+                describe_fn: Box::new(|(a, b): &(&'static str, &'static str)| json!({"first": a, "second": b})),
+            },
+            Strategy::Bfs,
+            Some(60),
+            json!({"pairs": n}),
+        ));
+    }
     // around the surrogate gap and the top of the code space
     let mut menu = Vec::new();
     for (lo, hi) in [
